@@ -2312,7 +2312,12 @@ class Head(Expr):
         raise NotImplementedError()
 
     def _simplify_down(self):
-        if isinstance(self.frame, Elemwise):
+        # ResetIndex labels the rows by their position in the partition and Split
+        # draws from a random state per partition, so the rows have to be
+        # selected after them
+        if isinstance(self.frame, Elemwise) and not isinstance(
+            self.frame, (ResetIndex, Split)
+        ):
             operands = [
                 Head(op, self.n, self.operand("npartitions"))
                 if isinstance(op, Expr) and not self.frame._broadcast_dep(op)
@@ -2423,7 +2428,10 @@ class Tail(Expr):
         raise NotImplementedError()
 
     def _simplify_down(self):
-        if isinstance(self.frame, Elemwise):
+        # See Head._simplify_down
+        if isinstance(self.frame, Elemwise) and not isinstance(
+            self.frame, (ResetIndex, Split)
+        ):
             operands = [
                 Tail(op, self.n)
                 if isinstance(op, Expr) and not self.frame._broadcast_dep(op)
@@ -2778,11 +2786,23 @@ class Partitions(Expr):
             isinstance(self.frame, Blockwise)
             and not isinstance(
                 # MapOverlap needs the neighbouring partitions until it is lowered;
-                # Sample and FillnaCheck build their tasks from the partition number
+                # Sample, Split and FillnaCheck build their tasks from the partition
+                # number
                 self.frame,
-                (BlockwiseIO, Fused, SetIndexBlockwise, MapOverlap, Sample, FillnaCheck),
+                (
+                    BlockwiseIO,
+                    Fused,
+                    SetIndexBlockwise,
+                    MapOverlap,
+                    Sample,
+                    Split,
+                    FillnaCheck,
+                ),
             )
             and not getattr(self.frame, "_has_partition_info", False)
+            # expressions that generate their own graph (loc on known divisions)
+            # do not map output partition i to partition i of their inputs
+            and type(self.frame)._layer is Expr._layer
         ):
             operands = [
                 (
